@@ -103,11 +103,45 @@ func near(got, want, tol float64) bool {
 // checkAgainst compares the library's results for (xs, weights) with the exact
 // statistics e of the equivalent unweighted multiset. n is the count used in
 // the error bounds.
+// view is one way of asking for the statistics of the same unweighted data: the slice
+// functions, the methods of Sample{Xs}, or those of a Sample marked Sorted.
+type view struct {
+	name                            string
+	mean, variance, sd, geo, sum, w func() float64
+	bounds                          func() (float64, float64)
+}
+
+func sliceView(xs []float64) view {
+	return view{"slice functions", func() float64 { return stats.Mean(xs) }, func() float64 { return stats.Variance(xs) },
+		func() float64 { return stats.StdDev(xs) }, func() float64 { return stats.GeoMean(xs) }, func() float64 { return vec.Sum(xs) },
+		func() float64 { return float64(len(xs)) }, func() (float64, float64) { return stats.Bounds(xs) }}
+}
+
+func sampleView(s stats.Sample, name string) view {
+	return view{name, s.Mean, s.Variance, s.StdDev, s.GeoMean, s.Sum, s.Weight, s.Bounds}
+}
+
+// checkUnweighted compares every view of the data with the exact statistics e. Each view
+// is judged against the exact value with the same tolerance: the property promises the
+// mathematical value up to rounding, not bit-identity between the different entry points.
 func checkUnweighted(xs []float64, e exactStats, label string) error {
+	views := []view{sliceView(xs), sampleView(stats.Sample{Xs: xs}, "Sample methods")}
+	if sort.Float64sAreSorted(xs) {
+		views = append(views, sampleView(stats.Sample{Xs: xs, Sorted: true}, "Sample marked Sorted"))
+	}
+	for _, v := range views {
+		if err := checkView(v, xs, e, label+", "+v.name); err != nil {
+			return err
+		}
+	}
+	return nil
+}
+
+func checkView(v view, xs []float64, e exactStats, label string) error {
 	n := float64(len(xs))
 	eps := ref.Eps
 	tolMean := cF*n*eps*absMax(xs) + 1e-300
-	if got := stats.Mean(xs); !near(got, e.mean, tolMean) {
+	if got := v.mean(); !near(got, e.mean, tolMean) {
 		return fmt.Errorf("%s: Mean = %.17g, exact %.17g (tol %.3g)", label, got, e.mean, tolMean)
 	} else if !isNaN(e.mean) {
 		ev.MaxErr("mean", math.Abs(got-e.mean)/tolMean)
@@ -116,11 +150,11 @@ func checkUnweighted(xs []float64, e exactStats, label string) error {
 	if e.n >= 2 && e.sd > 0 {
 		kappa = 1 + math.Abs(e.mean)/e.sd
 	}
-	tolVar := cF*n*eps*kappa*e.variance + 0
+	tolVar := cF * n * eps * kappa * e.variance
 	if e.n < 2 {
 		tolVar = 0
 	}
-	if got := stats.Variance(xs); !near(got, e.variance, tolVar) {
+	if got := v.variance(); !near(got, e.variance, tolVar) {
 		return fmt.Errorf("%s: Variance = %.17g, exact %.17g (tol %.3g, kappa %.3g)", label, got, e.variance, tolVar, kappa)
 	} else if tolVar > 0 {
 		ev.MaxErr("variance", math.Abs(got-e.variance)/tolVar)
@@ -129,28 +163,27 @@ func checkUnweighted(xs []float64, e exactStats, label string) error {
 	if e.n < 2 {
 		tolSD = 0
 	}
-	if got := stats.StdDev(xs); !near(got, e.sd, tolSD) {
+	if got := v.sd(); !near(got, e.sd, tolSD) {
 		return fmt.Errorf("%s: StdDev = %.17g, exact %.17g", label, got, e.sd)
 	}
 	tolGeo := cF * n * eps * (1 + e.maxLn) * e.geo
-	if got := stats.GeoMean(xs); !near(got, e.geo, tolGeo) {
+	if got := v.geo(); !near(got, e.geo, tolGeo) {
 		return fmt.Errorf("%s: GeoMean = %.17g, exact %.17g (tol %.3g)", label, got, e.geo, tolGeo)
 	} else if !isNaN(e.geo) {
 		ev.MaxErr("geomean", math.Abs(got-e.geo)/tolGeo)
 	}
-	if lo, hi := stats.Bounds(xs); !sameF(lo, e.min) || !sameF(hi, e.max) {
+	if lo, hi := v.bounds(); !sameF(lo, e.min) || !sameF(hi, e.max) {
 		return fmt.Errorf("%s: Bounds = %v,%v, want %v,%v", label, lo, hi, e.min, e.max)
 	}
-	if got := vec.Sum(xs); !near(got, e.sum, n*eps*e.sumAbs) {
-		return fmt.Errorf("%s: vec.Sum = %.17g, exact %.17g", label, got, e.sum)
+	wantSum := e.sum
+	if e.n == 0 {
+		wantSum = 0
 	}
-	// the Sample methods on an unweighted sample are the same functions
-	s := stats.Sample{Xs: xs}
-	lo, hi := s.Bounds()
-	l2, h2 := stats.Bounds(xs)
-	if !sameF(s.Mean(), stats.Mean(xs)) || !sameF(s.Variance(), stats.Variance(xs)) || !sameF(s.StdDev(), stats.StdDev(xs)) ||
-		!sameF(s.GeoMean(), stats.GeoMean(xs)) || !sameF(s.Sum(), vec.Sum(xs)) || s.Weight() != n || !sameF(lo, l2) || !sameF(hi, h2) {
-		return fmt.Errorf("%s: Sample methods disagree with the slice functions", label)
+	if got := v.sum(); !near(got, wantSum, n*eps*e.sumAbs) {
+		return fmt.Errorf("%s: Sum = %.17g, exact %.17g", label, got, wantSum)
+	}
+	if got := v.w(); got != n {
+		return fmt.Errorf("%s: Weight = %v, want %v", label, got, n)
 	}
 	return nil
 }
@@ -205,15 +238,6 @@ var checkDesc = ev.Register("descriptive", func(c *DescCase) ev.Outcome {
 	sort.Float64s(asc)
 	if err := checkUnweighted(asc, e, "ascending"); err != nil {
 		return ev.Outcome{Err: err}
-	}
-	if len(asc) > 0 {
-		a, b := stats.Sample{Xs: asc, Sorted: true}, stats.Sample{Xs: asc}
-		al, ah := a.Bounds()
-		bl, bh := b.Bounds()
-		if !sameF(al, bl) || !sameF(ah, bh) || !sameF(a.Sum(), b.Sum()) || !sameF(a.Weight(), b.Weight()) ||
-			!sameF(a.Mean(), b.Mean()) || !sameF(a.Variance(), b.Variance()) || !sameF(a.GeoMean(), b.GeoMean()) || !sameF(a.StdDev(), b.StdDev()) {
-			return ev.Fail("marking ascending data as Sorted changes a result")
-		}
 	}
 	kappa := 1.0
 	if e.n >= 2 && e.sd > 0 {
